@@ -2,6 +2,7 @@ package harness
 
 import (
 	"fmt"
+	"google.golang.org/protobuf/types/known/fieldmaskpb"
 	"math/rand"
 	"sort"
 	"strconv"
@@ -803,7 +804,45 @@ func TestC08(t *testing.T) {
 			}
 			return true
 		}
+		// the same validation on the update path: UpdateSubscription(mask=filter)
+		const uname = "projects/p/subscriptions/upd"
+		if _, err := sub.CreateSubscription(w.Ctx, &pubsubpb.Subscription{Name: uname, Topic: "projects/p/topics/t", Filter: "attributes:seed"}); err != nil {
+			t.Fatal(err)
+		}
+		tryUpdate := func(s string, wantOK bool) bool {
+			if strings.ToValidUTF8(s, "") != s || s == "" {
+				return true
+			}
+			before, _ := sub.GetSubscription(w.Ctx, &pubsubpb.GetSubscriptionRequest{Subscription: uname})
+			_, err := sub.UpdateSubscription(w.Ctx, &pubsubpb.UpdateSubscriptionRequest{
+				Subscription: &pubsubpb.Subscription{Name: uname, Filter: s}, UpdateMask: &fieldmaskpb.FieldMask{Paths: []string{"filter"}}})
+			after, gerr := sub.GetSubscription(w.Ctx, &pubsubpb.GetSubscriptionRequest{Subscription: uname})
+			apiChecked++
+			if gerr != nil {
+				violate("api-update", fmt.Sprintf("subscription unreadable after UpdateSubscription(filter=%q): %v", s, gerr), true, s)
+				return false
+			}
+			if wantOK && (err != nil || after.Filter != s) {
+				violate("api-update", fmt.Sprintf("UpdateSubscription with the grammar sentence %q as filter: err=%v, stored filter %q", s, err, after.Filter), true, s)
+				return false
+			}
+			if !wantOK && (err == nil || after.Filter != before.Filter) {
+				violate("api-update", fmt.Sprintf("UpdateSubscription with the non-sentence %q as filter: err=%v, stored filter %q -> %q", s, err, before.Filter, after.Filter), true, s)
+				return false
+			}
+			return true
+		}
 		sort.Strings(acceptedInputs)
+		for k := 0; k < nAPI/2 && k < len(acceptedInputs); k++ {
+			if !tryUpdate(acceptedInputs[(k*11)%len(acceptedInputs)], true) {
+				return
+			}
+		}
+		for k := 0; k < nAPI/2 && k < len(rejectedInputs); k++ {
+			if !tryUpdate(rejectedInputs[(k*11)%len(rejectedInputs)], false) {
+				return
+			}
+		}
 		for k := 0; k < nAPI && k < len(acceptedInputs); k++ {
 			if !try(acceptedInputs[(k*7)%len(acceptedInputs)], true, k) {
 				return
